@@ -68,7 +68,8 @@ theorem render_segsExpr : ∀ e : Expr, renderSegs (segsExpr e) = renderExpr e
   | .mulOp x y => by simp [segsExpr, renderExpr, render_segsExpr x, render_segsExpr y]
   | .divOp x y => by simp [segsExpr, renderExpr, render_segsExpr x, render_segsExpr y]
   | .mapFilterKeys keep keys m => by
-    simp [segsExpr, renderExpr, renderSegs_joinS, render_segsExpr m, Function.comp_def]
+    by_cases h : (keep && keys.isEmpty) = true <;>
+      simp [segsExpr, renderExpr, renderSegs_joinS, render_segsExpr m, Function.comp_def, h]
   | .mapAt m key => by simp [segsExpr, renderExpr, render_segsExpr m]
   | .tupleAt name i => by simp [segsExpr, renderExpr]
   | .topkSlice isTop hasLabels k => by simp [segsExpr, renderExpr, topkText]
